@@ -264,6 +264,18 @@ Proof.
                | lazymatch goal with |- NoFuel (match ?x with _ => _ end) => destruct x end ].
 Qed.
 
+Lemma wire_fields_nf ks bs rel zo : NoFuel (wire_fields ks bs rel zo).
+Proof.
+  revert bs. induction ks as [|k ks IH]; intros bs; simpl.
+  - destruct bs; [apply nf_ok|apply nf_lib].
+  - apply nf_bind.
+    + destruct k;
+        repeat first [ apply nf_ok | apply nf_lib
+                     | lazymatch goal with |- NoFuel (match ?x with _ => _ end) => destruct x end
+                     | lazymatch goal with |- NoFuel (if ?x then _ else _) => destruct x end ].
+    + intros [v rest] _. apply nf_bind; [apply IH|intros; apply nf_ok].
+Qed.
+
 Lemma parse_rdata_nf ty toks lerr co rel zo : NoFuel (parse_rdata ty toks lerr co rel zo).
 Proof.
   unfold parse_rdata. destruct (tbl_by_code type_table ty) as [[m ks]|].
@@ -274,7 +286,12 @@ Proof.
     repeat (destruct p as [p|p|]; try exact H).
     destruct v as [|c1 v]; [exact H|]. destruct c1 as [|p|p]; try exact H.
     repeat (destruct p as [p|p|]; try exact H).
-    destruct v; [unfold NoFuel; discriminate|exact H].
+    destruct v; [|exact H]. clear H.
+    destruct (wire_modelled ks); [|apply nf_lib].
+    apply nf_bind; [apply parse_generic_nf|intros g _].
+    destruct g as [|a [|b [|c0 g]]]; try apply nf_lib.
+    destruct c0, g; try apply nf_lib.
+    apply nf_bind; [apply wire_fields_nf|intros]. destruct lerr; [apply nf_lib|apply nf_ok].
   - apply nf_bind; [apply parse_generic_nf|intros]. destruct lerr; [apply nf_lib|apply nf_ok].
 Qed.
 
